@@ -309,7 +309,9 @@ func runC06(src sim.Source, o Opts) *Result {
 		for i := 0; i < nw; i++ {
 			var p []COp
 			for j, n := 0, 1+src.Intn("wops", 4); j < n; j++ {
-				if src.Intn("istxn", 3) == 0 {
+				if src.Intn("truncabort", 5) == 4 {
+					p = append(p, COp{Kind: "truncabort", Key: src.Intn("trunckey", len(cw.keys)+1) - 1})
+				} else if src.Intn("istxn", 3) == 0 {
 					p = append(p, COp{Kind: "txn", Txn: genCTxn(src, cw, &nextTag)})
 				} else {
 					nextTag++
